@@ -53,7 +53,7 @@ REQUIRED_COUNTERS = [
     "reported_found_in_log", "direct_problems", "direct_fitness_calls", "direct_corner_calls", "bounds_vectors_checked",
     "resimulations_checked", "layouts_vector_before_scalar", "layouts_log_after_vector", "layouts_per_component_bounds",
     "layouts_logarithmic", "layouts_detector_field", "layouts_keys_not_sorted", "algo_sade", "algo_sga", "algo_nlopt",
-    "multi_island_runs", "multi_evolution_runs",
+    "multi_island_runs", "multi_evolution_runs", "two_processor_runs", "direct_two_processor_calls",
 ]
 TIMEOUT = {"quick": 900, "thorough": 3600}
 LEVEL_TEXT = ("Exploration by runtime monitoring: every generated calibration is executed by the real Calibration / "
@@ -337,7 +337,10 @@ def gen_case(rng, kind: str, tier: str, force: str | None = None) -> dict:
             "islands": islands, "evolutions": rng.choice([1, 1, 2, 3]),
             "best": rng.choice([None, None, 1, 2, algo["population_size"]]),
             "topology": rng.choice(["unconnected", "ring", "fully_connected"]) if islands > 1 else "unconnected",
-            "inherited": rng.random() < 0.5, "resimulate": rng.random() < 0.6}
+            "inherited": rng.random() < 0.5, "resimulate": rng.random() < 0.6, "input_c": None}
+    if all(p["slot"] != "c" for p in params) and rng.random() < 0.3:
+        # two processors (result_input_arguments), one target each: every candidate is applied to both
+        case["input_c"] = [_r(rng, -5.0, 5.0), _r(rng, 6.0, 50.0)]
     return case
 
 
@@ -353,12 +356,13 @@ def newuoa_case(rng) -> dict:
             "algo": {"type": "nlopt", "generations": 1, "population_size": rng.randint(1, 3), "nlopt_solver": "newuoa",
                      "maxeval": 80, "xtol_rel": 1e-8},
             "pygmo_seed": rng.randint(0, 100000), "pipeline_seed": None, "islands": 1, "evolutions": 1, "best": None,
-            "topology": "unconnected", "inherited": True, "resimulate": False}
+            "topology": "unconnected", "inherited": True, "resimulate": False, "input_c": None}
 
 
 # ------------------------------------------------------------------ building the real objects
-def received_for(case: dict, per_param: list | None) -> dict:
-    """Values the probe must receive: defaults, overridden by the calibrated parameters."""
+def received_for(case: dict, per_param: list | None, c_value: float | None = None) -> dict:
+    """Values the probe must receive: defaults, overridden by the calibrated parameters (and by the
+    result_input_arguments value of the processor for argument c)."""
     vals = {s: [DEFAULTS[s]] for s in SCALARS}
     vals["v"] = list(DEFAULTS["v"][:case["n_v"]])
     vals["w"] = list(DEFAULTS["w"][:case["n_w"]])
@@ -367,18 +371,22 @@ def received_for(case: dict, per_param: list | None) -> dict:
     if per_param is not None:
         for p, part in zip(case["params"], per_param):
             vals[p["slot"]] = list(part)
+    if c_value is not None:
+        vals["c"] = [c_value]
     return vals
 
 
-def write_target(rec, case: dict, tag: str) -> str:
+def write_target(rec, case: dict, tag: str) -> list:
     truth_parts, pos = [], 0
     for p in case["params"]:
         n = p["n"] or 1
         truth_parts.append(case["truth"][pos:pos + n])
         pos += n
-    path = os.path.join(rec.tmp, f"target_{tag}.npy")
-    np.save(path, closed_form(received_for(case, truth_parts)))
-    return path
+    paths = []
+    for k, c_value in enumerate(case.get("input_c") or [None]):  # one target per processor
+        paths.append(os.path.join(rec.tmp, f"target_{tag}_{k}.npy"))
+        np.save(paths[-1], closed_form(received_for(case, truth_parts, c_value)))
+    return paths
 
 
 def make_objects(rec, case: dict, tag: str):
@@ -393,13 +401,17 @@ def make_objects(rec, case: dict, tag: str):
         pv.append(ParameterValues(key=p["key"], values=["_"] * p["n"] if p["n"] else "_",
                                   logarithmic=p["log"], boundaries=boundaries))
     fit = ["sum_of_abs_residuals", "sum_of_squared_residuals"][case["pygmo_seed"] % 2]
+    extra = {}
+    if case.get("input_c"):
+        extra["result_input_arguments"] = [ParameterValues(
+            key=f"pipeline.{case['group']}.{case['model']}.arguments.c", values=list(case["input_c"]))]
     cal = Calibration(
-        target_data_path=[write_target(rec, case, tag)],
+        target_data_path=write_target(rec, case, tag),
         fitness_function=FitnessFunction(func=f"pyxel.calibration.fitness.{fit}"),
         algorithm=Algorithm(**case["algo"]), parameters=pv,
         result_type="pixel", result_fit_range=(0, ROWS, 0, COLS), target_fit_range=(0, ROWS, 0, COLS),
         pygmo_seed=case["pygmo_seed"], pipeline_seed=case["pipeline_seed"], num_islands=case["islands"],
-        num_evolutions=case["evolutions"], num_best_decisions=case["best"], topology=case["topology"])
+        num_evolutions=case["evolutions"], num_best_decisions=case["best"], topology=case["topology"], **extra)
     args = {"a": DEFAULTS["a"], "b": DEFAULTS["b"], "c": DEFAULTS["c"],
             "v": list(DEFAULTS["v"][:case["n_v"]]), "w": list(DEFAULTS["w"][:case["n_w"]])}
     pipeline = build.make_pipeline({case["group"]: [{"name": case["model"], "func": "vf.checks.c10.probe",
@@ -464,9 +476,13 @@ def check_entry(rec, case: dict, entry: dict, per_param: list | None, what: str,
     for slot in SLOTS:
         vals = got[slot]
         if slot not in calibrated:
-            if vals != expected_plain[slot]:
+            if slot == "c" and case.get("input_c"):
+                allowed = [[t] for t in case["input_c"]]
+            else:
+                allowed = [expected_plain[slot]]
+            if vals not in allowed:
                 rec.violation(mech(case, "uncalibrated-setting-changed"),
-                              f"{slot} is not calibrated but the model received {vals} instead of {expected_plain[slot]}",
+                              f"{slot} is not calibrated but the model received {vals} instead of {allowed}",
                               case, index)
                 ok = False
             continue
@@ -478,19 +494,20 @@ def check_entry(rec, case: dict, entry: dict, per_param: list | None, what: str,
                           f"{p['key']} has {len(bounds)} placeholder(s) but the model received {vals}", case, index)
             ok = False
             continue
+        if per_param is not None:  # direct fitness call: the applied values are known exactly
+            want = per_param[j]
+            if not all(close(x, y) for x, y in zip(vals, want)):
+                rec.violation(mech(case, what, layout_class(params, j)),
+                              f"{p['key']} received {vals} but the mapping of the decision vector gives {want}; "
+                              f"all received: {got}", case, index)
+                ok = False
+                continue
         for i, (val, (lo, hi)) in enumerate(zip(vals, bounds)):
             rec.count("evaluations_bounds_checked")
             if not within(val, lo, hi):
                 rec.violation(mech(case, "evaluation-outside-bounds", layout_class(params, j)),
                               f"{what}: {p['key']}[{i}] received {val!r}, declared boundaries ({lo!r}, {hi!r}); "
                               f"all received: {got}", case, index)
-                ok = False
-        if per_param is not None and ok:
-            want = per_param[j]
-            if not all(close(x, y) for x, y in zip(vals, want)):
-                rec.violation(mech(case, what, layout_class(params, j)),
-                              f"{p['key']} received {vals} but the mapping of the decision vector gives {want}",
-                              case, index)
                 ok = False
     return ok
 
@@ -618,12 +635,13 @@ def check_resimulation(rec, case: dict, tree, index) -> None:
             rec.violation(mech(case, "resimulation-applies-other-values"),
                           f"island {isl}: champion parameters {pvec} but the re-simulation applied {applied}", case, index)
             continue
-        want = closed_form(received_for(case, [list(t) for t in parts]))
-        got = np.asarray(sim.isel(island=isl).values, dtype=float).reshape(ROWS, COLS)
-        if not np.allclose(got, want, rtol=1e-9, atol=1e-9):
-            rec.violation(mech(case, "resimulation-data-of-other-parameters"),
-                          f"island {isl}: /simulated/pixel is not the closed form of the champion parameters {pvec}",
-                          case, index)
+        for k, c_value in enumerate(case.get("input_c") or [None]):
+            want = closed_form(received_for(case, [list(t) for t in parts], c_value))
+            got = np.asarray(sim.isel(island=isl, processor=k).values, dtype=float).reshape(ROWS, COLS)
+            if not np.allclose(got, want, rtol=1e-9, atol=1e-9):
+                rec.violation(mech(case, "resimulation-data-of-other-parameters"),
+                              f"island {isl} processor {k}: /simulated/pixel is not the closed form of the champion "
+                              f"parameters {pvec}", case, index)
 
 
 # ------------------------------------------------------------------ cases
@@ -654,6 +672,8 @@ def run_calibration_case(rec, index, case: dict) -> None:
         rec.count("multi_island_runs")
     if case["evolutions"] > 1:
         rec.count("multi_evolution_runs")
+    if case.get("input_c"):
+        rec.count("two_processor_runs")
     if not log:
         rec.violation(mech(case, "no-evaluation-logged"), "the calibration returned without evaluating the probe", case, index)
     # (a)
@@ -756,6 +776,14 @@ def run_direct_case(rec, index, case: dict, tier: str, rng) -> None:
                 return
             for e in log:
                 if not check_entry(rec, case, e, want, "fitness-applies-wrong-values", index):
+                    rec.case(signature(case), nontrivial)
+                    return
+            if case.get("input_c"):
+                rec.count("direct_two_processor_calls")
+                if sorted(e["got"]["c"] for e in log) != sorted([t] for t in case["input_c"]):
+                    rec.violation("C10:fitness-applies-wrong-values:not-every-processor",
+                                  f"fitness({x}) ran the processors with c={[e['got']['c'] for e in log]}, "
+                                  f"result_input_arguments are {case['input_c']}", case, index)
                     rec.case(signature(case), nontrivial)
                     return
     rec.case(signature(case), nontrivial, sample={"kind": "direct", "params": case["params"]})
